@@ -118,7 +118,18 @@ Final == /\ Consume /\ Ev.e = "final"
          /\ made = gone                                           \* none leaked, none deleted twice
          /\ UNCHANGED <<st, cap, pend, creating, made, gone>>
 
-Next == \/ Reset \/ Inv \/ CStart \/ CEnd \/ Del \/ Ret \/ Final
+\* Storm: a summary line - `callers` goroutines asked for ONE key at once while its creation failed `fails` times in a row
+\* before it succeeded (too many pending calls for a search over linearization orders).  What the contract says about it:
+\* at no moment were two creations of the key in progress (single flight), every caller came back with the one value that
+\* was created (or with a creation error of its own), the creations that succeeded were exactly one, and the final Clear
+\* handed that value to the delete callback exactly once.
+Storm == /\ Consume /\ Ev.e = "storm"
+         /\ Ev.fails < Ev.callers            \* (every call creates at most once: with fewer failures than callers one succeeds)
+         /\ Ev.max_inflight <= 1 /\ Ev.successes = 1 /\ Ev.distinct_values = 1
+         /\ Ev.deleted_once = Ev.successes /\ Ev.deleted_other = 0 /\ Ev.stuck = 0
+         /\ UNCHANGED <<st, cap, pend, creating, made, gone>>
+
+Next == \/ Reset \/ Inv \/ CStart \/ CEnd \/ Del \/ Ret \/ Final \/ Storm
         \/ \E p \in Procs : Lin(p)
 
 Spec == Init /\ [][Next]_vars
